@@ -8,7 +8,8 @@ over the call graph (a private helper called from nowhere else counts as its cal
   R09.1 ``open_connection`` (``handle_connection`` inlined): no address -> none of the server hooks; otherwise exactly one
         ``ServerConnectHook``, followed by exactly one of ``ServerConnectedHook`` | ``ServerConnectErrorHook``; every
         ``ServerConnectedHook`` is followed by exactly one ``ServerDisconnectedHook`` on *all* exits (return, re-raised
-        cancellation); an ``OpenConnectionCompleted`` answer is sent on every path; every wait on an external awaitable between
+        cancellation); an ``OpenConnectionCompleted`` answer is handed to ``server_event`` exactly once on every path (the answer object
+        is followed by value: built in place, in a local or as the argument of a helper); every wait on an external awaitable between
         server_connect and its outcome is inside a ``CancelledError`` handler.  The six lifecycle hook classes are instantiated
         nowhere else in the package.
   R09.2 ``handle_client``: ``ClientConnectedHook`` is the first hook, ``ClientDisconnectedHook`` fires exactly once on every path
@@ -17,8 +18,12 @@ over the call graph (a private helper called from nowhere else counts as its cal
         handlers); the branch taken when ``client.error`` is set (tested directly, negated, via bool() or a local) closes the writer.
   R09.3 connect call, connected hook, ``handle_connection`` and disconnected hook all happen while a slot of
         ``self.max_conns[<conn>.address]`` is held (``async with`` or ``await <sem>.acquire()`` ... ``<sem>.release()`` balanced on
-        every exit), the key is the address that is connected to; ``max_conns`` is a ``defaultdict`` producing a fresh
-        ``asyncio.Semaphore(n)``, 1 <= n <= 5 (literal or module constant), written only while the handler is constructed.
+        every exit; a ``with helper(<sem>)`` on a generator-based ``@contextmanager`` / ``@asynccontextmanager`` is analysed by inlining
+        the generator around the with-body: the code before its ``yield`` runs on entry, the body runs at the yield, so a
+        ``try: yield`` / ``finally: <sem>.release()`` is the same release-on-every-exit as the written-out ``try/finally``), the key is the
+        address that is connected to; ``max_conns`` is a ``defaultdict`` whose factory - *called* abstractly, whatever callable it is:
+        lambda, ``functools.partial``, module function, static / class / ordinary method, with module and class constants each bound once
+        in the package - creates a fresh ``asyncio.Semaphore(n)``, 1 <= n <= 5; written only while the handler is constructed.
   R09.4 ``handle_connection`` removes ``self.transports[connection]`` (``pop`` / ``del``) exactly once on every exit (EOF, OSError,
         close error, cancellation re-raised after the pop) and closes the writer before; every suspending await is inside a
         ``CancelledError`` handler.
@@ -45,11 +50,12 @@ from ..paths import count
 from ..paths import index_of
 from ..paths import R
 from ..selftest import Mutant
+from ._helpers_B import binding_sites
 from ._helpers_B import cancel_guarded
 from ._helpers_B import ceval
 from ._helpers_B import class_helper_resolver
 from ._helpers_B import is_sym
-from ._helpers_B import module_const
+from ._helpers_B import MiniInterp
 from ._helpers_B import NotAnAtom
 from ._helpers_B import S
 from ._helpers_B import CONN_HANDLER_ATOMIC
@@ -90,6 +96,26 @@ def _helpers(ctx, inline=()):
     return class_helper_resolver(ctx.model, F, "ConnectionHandler", [a for a in CONN_HANDLER_ATOMIC if a not in inline])
 
 
+class OpenSpec(SymFlowSpec):
+    """open_connection for R09.1: SymFlowSpec plus the answer to the layer by value - ``events.OpenConnectionCompleted(..)`` is S('answer')
+    wherever it is built (in place, in a local, as the argument of a helper) and ('answer',) is the event of handing it to
+    ``self.server_event``."""
+
+    ANSWER = "OpenConnectionCompleted"
+
+    def sym_value(self, expr, st, depth):
+        if isinstance(expr, ast.Call) and last_attr(expr.func) == self.ANSWER:
+            return S("answer")
+        return super().sym_value(expr, st, depth)
+
+    def sym_events(self, node, st):
+        out = list(super().sym_events(node, st))
+        for n in eval_order(node):
+            if isinstance(n, ast.Call) and call_name(n) == "self.server_event" and len(n.args) == 1 and is_sym(self.sym(n.args[0], st), "answer"):
+                out.append(("answer",))
+        return out
+
+
 def _r09_1(ctx):
     m = ctx.model
     oc = ctx.func(F, "ConnectionHandler.open_connection")
@@ -99,13 +125,9 @@ def _r09_1(ctx):
         m.cls(SH, h)
 
     def keep(ev):
-        if ev[0] in ("hook", "extwait"):
-            return True
-        if ev[0] == "call" and ev[1].endswith("OpenConnectionCompleted"):
-            return True
-        return False
+        return ev[0] in ("hook", "extwait", "answer")
 
-    res, eng = traces_of_v(oc, SymFlowSpec(keep=keep, resolver=_helpers(ctx, inline=("handle_connection",)), hook_classes=LIFECYCLE, extwaits=True))
+    res, eng = traces_of_v(oc, OpenSpec(keep=keep, resolver=_helpers(ctx, inline=("handle_connection",)), hook_classes=LIFECYCLE, extwaits=True))
     ctx.require("handle_connection" in eng.inlined, "open_connection no longer awaits self.handle_connection(...)")
     term = _terminal(res)
     ctx.paths += len(term)
@@ -136,12 +158,15 @@ def _r09_1(ctx):
         if n_disc != n_ok or (n_ok and index_of(t, is_hook(S_DISC)) < index_of(t, is_hook(S_CONNECTED))):
             bad["disconnect"] += 1
         # the layer is answered exactly once (it is blocked on OpenConnection), before serving the connection
-        n_ans = count(t, lambda e: e[0] == "call" and e[1].endswith("OpenConnectionCompleted"))
+        n_ans = count(t, lambda e: e[0] == "answer")
         if n_ans != 1:
             bad["answer"] += 1
-    ctx.require(any(k[0] == 0 for k in kinds) and any(k[1] >= 1 for k in kinds) and any(k[2] >= 1 for k in kinds),
-                f"open_connection: expected a no-address path, a connected path and a connect-error path, got {sorted(kinds)}")
-    ctx.require(any(k[4] == "raise" and k[1] == 1 for k in kinds), "open_connection: the exceptional exit of handle_connection is no longer modelled")
+    if not any(bad.values()):
+        # vacuity guard of the four path facts below (when one of them is violated the violation is the answer, e.g. the error hook dropped
+        # from the one helper that reports all failed attempts)
+        ctx.require(any(k[0] == 0 for k in kinds) and any(k[1] >= 1 for k in kinds) and any(k[2] >= 1 for k in kinds),
+                    f"open_connection: expected a no-address path, a connected path and a connect-error path, got {sorted(kinds)}")
+        ctx.require(any(k[4] == "raise" and k[1] == 1 for k in kinds), "open_connection: the exceptional exit of handle_connection is no longer modelled")
     ctx.note(f"R09.1 open_connection path kinds (connect, connected, error, disconnected, exit): {sorted(kinds)}")
     ctx.check(bad["no-hooks-without-address"] == 0, "R09.1", where, "server hooks on a path without ServerConnectHook",
               f"{bad['no-hooks-without-address']} path(s) fire server_connected/error/disconnected without a preceding server_connect", desc="no hook without server_connect")
@@ -154,7 +179,7 @@ def _r09_1(ctx):
     # cancellation between server_connect and its outcome: every wait on an external awaitable there (the per-address slot, the
     # connect call) must sit inside a handler for CancelledError (in its own function or at the call site of the helper it was moved to)
     # - the path enumeration above then shows that the handler reports an outcome
-    ctx.require(len(waits) >= 2, f"open_connection: expected the slot wait and the connect call between server_connect and server_connected, found {[w[1] for w in waits.values()]}")
+    ctx.require(len(waits) >= 2 or any(bad.values()), f"open_connection: expected the slot wait and the connect call between server_connect and server_connected, found {[w[1] for w in waits.values()]}")
     for node, what, guarded in sorted(waits.values(), key=lambda w: (w[0].lineno, w[0].col_offset)):
         ctx.check(guarded, "R09.1", (F, qual_of(node), node), f"wait `{what}` between server_connect and its outcome is cancellation-guarded",
                   f"`{what}` can be cancelled (client disconnect) after server_connect fired, outside any handler for asyncio.CancelledError: "
@@ -176,7 +201,7 @@ def _r09_1(ctx):
         root = hcl if cls.startswith("Client") else oc
         want = root._qual
         got = sites.get(cls, [])
-        ctx.require(got, f"{cls} is instantiated nowhere (anchor vanished)")
+        ctx.require(got or any(bad.values()), f"{cls} is instantiated nowhere (anchor vanished)")
         for rel, q, c in got:
             fn = enclosing_func(c)
             ok = fn is not None and (fn is root or (rel == F and only_reachable_from(m, rel, fn, [root])))
@@ -300,6 +325,14 @@ class SemSpec(SymFlowSpec):
 
     def _check_use(self, n):
         p = getattr(n, "_parent", None)
+        if isinstance(p, ast.Attribute) and p.attr in ("acquire", "release"):
+            # only the plain forms are events of the alphabet: `await <sem>.acquire()` and `<sem>.release()`; the bound method handed to
+            # something else (wait_for(<sem>.acquire(), ..), stack.callback(<sem>.release), ...) is not modelled
+            c = getattr(p, "_parent", None)
+            called = isinstance(c, ast.Call) and c.func is p and not c.args and not c.keywords
+            if not called or (p.attr == "acquire" and not isinstance(getattr(c, "_parent", None), ast.Await)):
+                raise AnalysisError(f"open_connection: `{norm(c if called else p)[:60]}` - the per-address semaphore is acquired / released other than by "
+                                    f"`await <sem>.acquire()` / `<sem>.release()` / `async with <sem>` (not modelled): {norm(c)[:80]}")
         ok = (
             (isinstance(p, ast.Attribute) and p.attr in ("acquire", "release") + SEM_QUERIES)
             or isinstance(p, (ast.withitem, ast.FormattedValue, ast.Compare, ast.Assert, ast.Expr))
@@ -345,30 +378,196 @@ class SemSpec(SymFlowSpec):
         return tuple(("release", k) for k in reversed(self._with.get(id(node), [])))
 
 
-def _semaphore_bound(ctx, mod, factory):
-    """n of the ``asyncio.Semaphore(n)`` every call of the defaultdict factory creates; shapes: ``lambda: Semaphore(n)``,
-    ``functools.partial(Semaphore, n)``; n a literal or a module constant"""
-    def const(e):
-        def atom(n, env):
-            if isinstance(n, ast.Name) and mod.assigns(n.id):
-                return module_const(ctx.model, F, n.id)
-            raise NotAnAtom
-        return ceval(e, {}, atom, "semaphore size")
+class _FreshSem:
+    """abstract value: an ``asyncio.Semaphore(n)`` created by the call that is being evaluated"""
 
-    sem = None
-    if isinstance(factory, ast.Lambda) and not (factory.args.args or factory.args.vararg or factory.args.kwarg or factory.args.kwonlyargs) and isinstance(factory.body, ast.Call):
-        sem, args, kws = factory.body.func, factory.body.args, factory.body.keywords
-    elif isinstance(factory, ast.Call) and last_attr(factory.func) == "partial" and factory.args:
-        sem, args, kws = factory.args[0], factory.args[1:], factory.keywords
-    if sem is None or last_attr(sem) not in ("Semaphore", "BoundedSemaphore"):
-        raise AnalysisError(f"max_conns: the defaultdict factory {norm(factory)} is not modelled (expected a lambda / partial creating a fresh asyncio.Semaphore(n))")
-    vals = list(args) + [k.value for k in kws if k.arg == "value"]
-    if len(vals) != 1 or any(k.arg != "value" for k in kws):
-        raise AnalysisError(f"max_conns: unmodelled Semaphore arguments in {norm(factory)}")
-    n = const(vals[0])
-    if not isinstance(n, int) or isinstance(n, bool):
-        raise AnalysisError(f"max_conns: Semaphore size {norm(vals[0])} is not an integer constant")
-    return n
+    def __init__(self, n):
+        self.n = n
+
+
+SEM_CLASSES = ("asyncio.Semaphore", "asyncio.BoundedSemaphore", "asyncio.locks.Semaphore", "asyncio.locks.BoundedSemaphore")
+
+
+def _semaphore_bound(ctx, mod, factory, owner="ConnectionHandler"):
+    """n of the ``asyncio.Semaphore(n)`` every call of the defaultdict factory creates.  The factory is *called* (abstractly, with no
+    arguments) whatever callable it is: a lambda, ``functools.partial(..)``, a function of the module, a static / class / ordinary method of
+    the handler reached through ``self`` / ``cls`` / the class, or a module constant holding one of these; function bodies are interpreted
+    (MiniInterp), names are module constants, ``self.X`` / ``cls.X`` / ``Class.X`` class constants (each bound exactly once in the package).
+    The result must be a semaphore created *during* the call (one created while a constant or a default argument is evaluated is shared
+    between the addresses: not modelled)."""
+    model = ctx.model
+    shared = [0]  # > 0 while a module / class constant or a default argument is evaluated
+    what = "max_conns factory"
+
+    def bound_once(name, kind):
+        sites = binding_sites(model, name)
+        if len(sites) != 1:
+            raise AnalysisError(f"max_conns: the {kind} `{name}` the semaphore factory depends on is bound {len(sites)} times in the package "
+                                f"({sorted({r for r, _ in sites})}): which value reaches the factory is not modelled")
+
+    def dotted(e):
+        ch = attr_chain(e)
+        if not ch:
+            return ""
+        head, _, rest = ch.partition(".")
+        if head in mod.imports and not mod.assigns(head) and mod.get(head) is None:
+            return mod.imports[head] + ("." + rest if rest else "")
+        return ""
+
+    def make_sem(*a, **k):
+        if len(a) > 1 or set(k) - {"value"} or (a and k):
+            raise AnalysisError(f"max_conns: unmodelled Semaphore arguments {a} {k}")
+        n = a[0] if a else k.get("value", 1)  # asyncio.Semaphore(value=1)
+        if not isinstance(n, int) or isinstance(n, bool):
+            raise AnalysisError(f"max_conns: Semaphore size {n!r} is not an integer constant")
+        if shared[0]:
+            raise AnalysisError("max_conns: the semaphore is created once (module / class constant or default argument) and shared between the addresses (not modelled)")
+        return _FreshSem(n)
+
+    def make_partial(f, *a, **k):
+        if not callable(f):
+            raise AnalysisError("max_conns: functools.partial of something that is not a modelled callable")
+        return lambda *b, **kk: f(*a, *b, **{**k, **kk})
+
+    def class_attr(name):
+        """(value node | def node) of the class-level binding of ``name`` along the MRO of the handler class"""
+        for _, c in model.mro(F, owner):
+            for st in c.body:
+                if isinstance(st, (ast.FunctionDef, ast.AsyncFunctionDef)) and st.name == name:
+                    return st
+                if isinstance(st, ast.Assign) and any(isinstance(t, ast.Name) and t.id == name for t in st.targets):
+                    return st.value
+                if isinstance(st, ast.AnnAssign) and isinstance(st.target, ast.Name) and st.target.id == name and st.value is not None:
+                    return st.value
+        return None
+
+    def self_like(e):
+        """'inst' for self, 'cls' for cls / type(self) / self.__class__ / the handler class by name, else None"""
+        if isinstance(e, ast.Name):
+            if e.id == "self":
+                return "inst"
+            if e.id == "cls" or e.id in [c.name for _, c in model.mro(F, owner)]:
+                return "cls"
+        if isinstance(e, ast.Attribute) and e.attr == "__class__" and self_like(e.value) == "inst":
+            return "cls"
+        if isinstance(e, ast.Call) and isinstance(e.func, ast.Name) and e.func.id == "type" and len(e.args) == 1 and self_like(e.args[0]) == "inst":
+            return "cls"
+        return None
+
+    def function(fn, bound):
+        """python callable interpreting the def ``fn``; ``bound`` = its first parameter is the receiver"""
+        if isinstance(fn, ast.AsyncFunctionDef) or any(isinstance(n, (ast.Yield, ast.YieldFrom)) for n in ast.walk(fn)):
+            raise AnalysisError(f"max_conns: the semaphore factory {fn.name} is a coroutine / generator function")
+        a = fn.args
+        if a.vararg or a.kwarg or a.kwonlyargs or a.posonlyargs:
+            raise AnalysisError(f"max_conns: signature of {fn.name} not modelled")
+        params = [x.arg for x in a.args][1 if bound else 0:]
+        defaults = dict(zip([x.arg for x in a.args][len(a.args) - len(a.defaults):], a.defaults))
+        bound_once(fn.name, "function")
+
+        def run(*vals, **kw):
+            if len(vals) > len(params) or set(kw) - set(params):
+                raise AnalysisError(f"max_conns: call of {fn.name} does not fit its signature")
+            env = dict(zip(params, vals))
+            env.update(kw)
+            for p_ in params:
+                if p_ not in env:
+                    if p_ not in defaults:
+                        raise AnalysisError(f"max_conns: {fn.name} called without `{p_}`")
+                    shared[0] += 1
+                    try:
+                        env[p_] = ceval(defaults[p_], {}, atom, what)
+                    finally:
+                        shared[0] -= 1
+            return MiniInterp(atom=atom, what=f"{what} {fn.name}").run(fn, env)
+
+        return run
+
+    def method_kind(fn):
+        ds = [last_attr(d) for d in fn.decorator_list]
+        if ds == ["staticmethod"]:
+            return "static"
+        if ds == ["classmethod"]:
+            return "class"
+        if not ds:
+            return "plain"
+        raise AnalysisError(f"max_conns: decorators of {fn.name} not modelled: {ds}")
+
+    def constant(node):
+        shared[0] += 1
+        try:
+            return ceval(node, {}, atom, what)
+        finally:
+            shared[0] -= 1
+
+    def callable_of(e, env):
+        """python callable modelling what the expression ``e`` (the callee of a call, or a callable passed around) denotes, else None"""
+        if isinstance(e, ast.Name) and e.id in env:
+            return env[e.id] if callable(env[e.id]) else None
+        d = dotted(e)
+        if d in SEM_CLASSES:
+            return make_sem
+        if d == "functools.partial":
+            return make_partial
+        if isinstance(e, ast.Name):
+            fn = mod.get(e.id)
+            if isinstance(fn, (ast.FunctionDef, ast.AsyncFunctionDef)):
+                if fn.decorator_list:
+                    raise AnalysisError(f"max_conns: decorators of {fn.name} not modelled")
+                return function(fn, bound=False)
+        if isinstance(e, ast.Attribute):
+            recv = self_like(e.value)
+            if recv is not None:
+                target = class_attr(e.attr)
+                if isinstance(target, (ast.FunctionDef, ast.AsyncFunctionDef)):
+                    kind = method_kind(target)
+                    return function(target, bound=(kind == "class" or (kind == "plain" and recv == "inst")))
+        return None
+
+    def atom(n, env):
+        if isinstance(n, ast.Call):
+            f = callable_of(n.func, env)
+            if f is None:
+                raise NotAnAtom
+            args = []
+            for x in n.args:
+                if isinstance(x, ast.Starred):
+                    args.extend(ceval(x.value, env, atom, what))
+                else:
+                    args.append(ceval(x, env, atom, what))
+            kws = {}
+            for k in n.keywords:
+                if k.arg is None:
+                    kws.update(ceval(k.value, env, atom, what))
+                else:
+                    kws[k.arg] = ceval(k.value, env, atom, what)
+            return f(*args, **kws)
+        if isinstance(n, (ast.Name, ast.Attribute)):
+            f = callable_of(n, env)
+            if f is not None:
+                return f
+        if isinstance(n, ast.Name) and mod.assigns(n.id):
+            bound_once(n.id, "module constant")
+            return constant(model.const(F, n.id))
+        if isinstance(n, ast.Attribute) and self_like(n.value) is not None:
+            target = class_attr(n.attr)
+            if target is not None and not isinstance(target, (ast.FunctionDef, ast.AsyncFunctionDef)):
+                bound_once(n.attr, "class constant")
+                return constant(target)
+        raise NotAnAtom
+
+    f = ceval(factory, {}, atom, what)
+    if not callable(f):
+        raise AnalysisError(f"max_conns: the defaultdict factory {norm(factory)} is not a modelled callable")
+    try:
+        made = f()
+    except AnalysisError:
+        raise
+    except Exception as ex:  # the abstract call itself failed (arity ...): not a shape the rule models
+        raise AnalysisError(f"max_conns: calling the defaultdict factory {norm(factory)} fails in the model: {ex!r}")
+    if not isinstance(made, _FreshSem):
+        raise AnalysisError(f"max_conns: the defaultdict factory {norm(factory)} is not modelled (expected a callable creating a fresh asyncio.Semaphore(n), got {made!r})")
+    return made.n
 
 
 def _r09_3(ctx):
@@ -574,6 +773,7 @@ def check(ctx):
     ctx.assume("cancellation/OSError are modelled at every statement of a try body whose handlers name them; awaits of server_event/handle_hook outside such a try are not interrupted")
     ctx.assume("`raise AssertionError(...)` paths are not behaviours (same as failed assert)")
     ctx.trust("asyncio.Semaphore / async with acquire-release pairing")
+    ctx.trust("contextlib.contextmanager / asynccontextmanager: the generator runs to its single yield on entry, the with-body's exception is thrown at the yield, the rest runs on exit")
     _r09_1(ctx)
     _r09_2(ctx)
     _r09_3(ctx)
@@ -590,6 +790,12 @@ MUTANTS = [
     Mutant("connect-error-hook-only-for-oserror", F,
            "                await self.handle_hook(server_hooks.ServerConnectErrorHook(hook_data))\n                await self.server_event(events.OpenConnectionCompleted(command, err))\n",
            "                if not isinstance(e, asyncio.CancelledError):\n                    await self.handle_hook(server_hooks.ServerConnectErrorHook(hook_data))\n                await self.server_event(events.OpenConnectionCompleted(command, err))\n", "R09.1"),
+    Mutant("cancelled-slot-wait-not-answered", F,
+           "            await self.server_event(events.OpenConnectionCompleted(command, err))\n            raise\n", "            raise\n", "R09.1"),
+    Mutant("answered-twice", F,
+           "                await self.server_event(events.OpenConnectionCompleted(command, None))\n",
+           "                asyncio_utils.create_task(self.server_event(events.OpenConnectionCompleted(command, None)), name=\"answer\", keep_ref=True)\n"
+           "                await self.server_event(events.OpenConnectionCompleted(command, None))\n", "R09.1"),
     Mutant("no-address-fires-connect-error", F,
            "            self.log(f\"Cannot open connection, no hostname given.\")\n",
            "            self.log(f\"Cannot open connection, no hostname given.\")\n            await self.handle_hook(server_hooks.ServerConnectErrorHook(None))\n", "R09.1"),
